@@ -193,6 +193,33 @@ func (r *foRun) startGet(p string) {
 	}()
 }
 
+// lateProbes runs after a schedule that deviated from the model: three more Gets per key, one tick apart.  What the
+// deviation left behind - a result that expires too early, a failure that is remembered too long or not at all - shows
+// in whether these calls build, and the monitors judge that.  On code that follows the model this never runs.
+func (r *foRun) lateProbes() {
+	for i := 1; i <= 3; i++ {
+		time.Sleep(r.u)
+		r.s.rec(Event{Ev: "tick"})
+
+		for _, mk := range r.cfg.Keys {
+			p := fmt.Sprintf("late%d-%s", i, mk)
+			ctx := context.WithValue(context.WithValue(context.Background(), procKey{}, p), ctxProbe{}, p)
+
+			r.s.rec(Event{Ev: "call", P: p, K: mk})
+
+			go func() {
+				v, err := r.fo.Get(ctx, append([]byte(nil), r.km.ByModel[mk]...), func(bctx context.Context) (string, error) {
+					return r.s.build(bctx, p, mk, func() bool { return false })
+				})
+				r.s.rec(Event{Ev: "ret", P: p, K: mk, V: v, Err: errTok(err)})
+			}()
+
+			synctest.Wait()
+			r.drain()
+		}
+	}
+}
+
 func (r *foRun) result(p string) foResJ {
 	r.s.mu.Lock()
 	defer r.s.mu.Unlock()
@@ -268,8 +295,12 @@ func (r *foRun) pressure() {
 		r.s.mu.Unlock()
 
 		if !started {
+			// one tick before each late call: a result that expires earlier than it should is found expired
+			time.Sleep(r.u)
+			r.s.rec(Event{Ev: "tick"})
 			r.startGet(p)
 			synctest.Wait()
+			r.drainUntil(true)
 		}
 	}
 
@@ -380,7 +411,13 @@ func (r *foRun) exec(b []foStepJ) {
 				r.s.rec(Event{Ev: "extdelete", K: f.Out})
 			}
 		case f.Name == "Start":
-			r.startGet(f.P)
+			r.s.mu.Lock()
+			_, started := r.cancels[f.P]
+			r.s.mu.Unlock()
+
+			if !started { // pressure() may have started it already
+				r.startGet(f.P)
+			}
 		case f.Name == "Wake":
 			// nothing to release: the owner's close woke the waiter
 		default:
@@ -554,6 +591,7 @@ func runFoSchedule(t *testing.T, cfg FoCfg, bi int, b []foStepJ, seed int64) (ou
 		if len(r.drift) > 0 {
 			r.drain()
 			r.s.checkHanded()
+			r.lateProbes()
 		}
 
 		// Quiescence: nothing parked, every Get returned.
